@@ -392,8 +392,9 @@ def run(ctx) -> None:
         rep.violate("C08.R5", aenter, aenter.node, "no context ever creates the task group")
     else:
         c0 = creates[0]
-        ct = controlling_tests(ecfg, c0)
-        root_only = any("is None" in ast.unparse(t.ast) or ast.unparse(t.ast).startswith("not ") for t, lab in ct)
+        from .discharge import controlling_conditions
+
+        root_only = any(("parent" in ast.unparse(e_)) and ((isinstance(e_, ast.Compare) and isinstance(e_.ops[0], ast.Is) and truth) or (isinstance(e_, (ast.Name, ast.Attribute)) and not truth)) for e_, truth, _t in controlling_conditions(ecfg, c0))
         rep.check("C08.R5", root_only, aenter, c0.ast, "only a root context creates a task group", "every context creates its own task group")
         rep.check("C08.R5", "enter_async_context" in ast.unparse(c0.ast.value) and "create_task_group" in ast.unparse(c0.ast.value), aenter, c0.ast, "the task group is entered on the context's exit stack", "the task group is not tied to the context's exit stack")
         from .c01 import runner_of
